@@ -25,7 +25,7 @@ LEVEL = 'exploration'
 SHARDS = {'quick': 16, 'thorough': 16}
 FLOOR = {'quick': 800, 'thorough': 3000}
 REQUIRED_MONITORS = {'sites-checked': 1200, 'opt-outs-checked': 150}
-RULE = ('a case = (site kind, wrapper, hostile value, neighbours); 17 site kinds {element text, "attr", \'attr\', two '
+RULE = ('a case = (site kind, wrapper, hostile value, neighbours); 21 site kinds {element text, "attr", \'attr\', two '
         'interpolations in one attribute, tal:attributes onto new / "static" / \'static\' attribute, dictionary attribute value, '
         'comment, tal:content, tal:replace, string: in content, string: in attribute, ${} inside i18n:translate, i18n:name '
         'block, message object with hostile translation, i18n:attributes value} x 6 wrappers x 30 hostile values (each of & < > '
@@ -110,6 +110,10 @@ SITES = {
     'tal-attr-sq-static': ("<p a='s' tal:attributes=\"a '" + A + "' + str_of(v) + '" + B + "'\">t</p>", ('attr', 'a', "'")),
     'tal-attr-direct': ('<p tal:attributes="a v">t</p>', ('attr-whole', 'a', '"')),
     'tal-attr-direct-sq': ("<p a='s' tal:attributes=\"a v\">t</p>", ('attr-whole', 'a', "'")),
+    'tal-attr-unquoted-static': ('<p a=s tal:attributes="a v">t</p>', ('attr-whole', 'a', '"')),
+    'tal-attr-unquoted-static-concat': ('<p b="1" a=s/t c=2 tal:attributes="a \'' + A + '\' + str_of(v) + \'' + B + '\'">t</p>', ('attr', 'a', '"')),
+    'tal-attr-valueless-static': ('<p a tal:attributes="a v">t</p>', ('attr-whole', 'a', '"')),
+    'dict-attr-unquoted-static': ('<p a=s tal:attributes="{\'a\': v}">t</p>', ('attr-whole', 'a', '"')),
     'dict-attr': ('<p tal:attributes="{\'a\': v}">t</p>', ('attr-whole', 'a', '"')),
     'comment': ('<!--' + A + '${v}' + B + '-->', 'comment'),
     'content': ('<p tal:content="v">x</p>', 'text-whole'),
@@ -181,6 +185,8 @@ def extract(out, region):
             continue
         for n, q, val in attrs:
             if n == name:
+                if q is None and val is None:
+                    return ['']      # written without a value: the empty string (HTML), nothing to escape
                 if q != quote:
                     return 'QUOTE-CHANGED'
                 if kind == 'attr-whole':
